@@ -71,6 +71,14 @@ func newDataReader(c *Conn) *dataReader {
 func (r *dataReader) Read(b []byte) (n int, err error) {
 	if r.limited {
 		if r.n <= 0 {
+			// The budget is used up: only the end marker may follow.
+			var one [1]byte
+			r.limited = false
+			n, err := r.Read(one[:])
+			r.limited = true
+			if n == 0 && err != nil {
+				return 0, err
+			}
 			return 0, ErrDataTooLarge
 		}
 		if int64(len(b)) > r.n {
